@@ -27,6 +27,37 @@ ASSUMPTIONS_ENGINE = [
 ]
 
 
+def scan_assumptions():
+    """mechanical scan, run before every report: where do the loaded contract modules ASSUME something instead of proving it -
+    `st.assume(...)` sites inside hook / result-builder functions (the meaning given to external calls) and contracts marked
+    `assumed=True`.  One line per module; the hand-written trusted base says what those assumptions are."""
+    import ast
+    import sys
+    out = []
+    for name, mod in sorted(sys.modules.items()):
+        if not name.startswith("contracts.") or not getattr(mod, "__file__", None):
+            continue
+        try:
+            tree = ast.parse(open(mod.__file__).read())
+        except (OSError, SyntaxError):
+            continue
+        sites, assumed = {}, 0
+        for top in tree.body:
+            for n in ast.walk(top):
+                if isinstance(n, ast.Call):
+                    if isinstance(n.func, ast.Attribute) and n.func.attr == "assume":
+                        fn = getattr(top, "name", "<module level>")
+                        sites[fn] = sites.get(fn, 0) + 1
+                    for kw in n.keywords:
+                        if kw.arg == "assumed" and isinstance(kw.value, ast.Constant) and kw.value.value is True:
+                            assumed += 1
+        if sites or assumed:
+            fns = ", ".join(f"{k} x{v}" for k, v in sorted(sites.items()))
+            out.append(f"scan {name.replace('.', '/')}.py: {sum(sites.values())} assume site(s) in hooks / builders"
+                       f"{' (' + fns + ')' if fns else ''}; {assumed} contract(s) marked assumed=True")
+    return out
+
+
 def load_known():
     out = []
     if os.path.exists(KNOWN):
@@ -280,7 +311,7 @@ class Report:
         }
         cov.update(self.extra)
         ev = {"property_id": self.pid, "tier": self.tier, "seed": self.seed, "level": level, "coverage": cov,
-              "assumptions": self.assumptions, "wall_s": round(time.time() - self.t0, 2), "violations": len(self.violations)}
+              "assumptions": self.assumptions + scan_assumptions(), "wall_s": round(time.time() - self.t0, 2), "violations": len(self.violations)}
         with open(os.path.join(EVID, f"{self.pid}.json"), "w") as fh:
             json.dump(ev, fh, indent=1, default=str)
         print(f"[{self.pid}] tier={self.tier} obligations={n_obl} discharged={n_dis} bounded_evaluations="
